@@ -5,6 +5,7 @@ package main
 import (
 	"fmt"
 	"go/ast"
+	"go/parser"
 	"go/token"
 	"strings"
 )
@@ -414,6 +415,24 @@ func (x *otrans) assign(s *ast.AssignStmt, en oenv, fc *ofctx, next okont) strin
 		}
 		if len(s.Lhs) != 1 {
 			fail("assignment mismatch in %s", norm(src(s)))
+		}
+		if sel, ok := s.Lhs[0].(*ast.SelectorExpr); ok && !define && s.Tok == token.ASSIGN {
+			if b := x.expr(sel.X, en, ""); x.ti(b.typ).Kind == "optopaque" {
+				// `p.f = v` for a pointer p to an OPAQUE struct: written through an env function; a nil pointer is a panic
+				ft, ok := x.u.EnvFields[strings.TrimSpace(b.typ)+"."+sel.Sel.Name]
+				if !ok || b.lv == nil {
+					fail("assignment to %s", norm(src(s.Lhs[0])))
+				}
+				bi := x.ti(b.typ)
+				name := strings.TrimPrefix(strings.TrimSpace(b.typ), "*") + "_set_" + sel.Sel.Name
+				x.envFn(name, bi.Payload+" → "+x.ti(ft).Lean+" → "+bi.Payload, fmt.Sprintf("field `%s` of `%s` (write)", sel.Sel.Name, strings.TrimSpace(b.typ)))
+				v := x.coerce(x.expr(rhs, en, ft), ft)
+				bind := x.tmp("p")
+				x.guards = append(x.guards, oguard{kind: "opt", e: b.lean, bind: bind})
+				text := x.store(en, *b.lv, "(some (env."+name+" "+bind+" "+paren(v.lean)+"))")
+				return x.withGuards(g0, fc, text+next(en))
+			}
+			x.guards = x.guards[:g0]
 		}
 		want := ""
 		if !define {
@@ -920,6 +939,15 @@ func (x *otrans) emitLoop(lp oloop, bodyOf func(lf *ofctx) string, en oenv, fc *
 		fdecl += " (" + v.lean + " : " + x.ti(v.typ).Lean + ")"
 		fargs += " " + v.lean
 	}
+	// `rec_` / `depth_` of a Rec / Fuel target are pseudo-variables of the environment
+	if toks["rec_"] {
+		fdecl += " (rec_ : " + oShapes[x.t.Func].recType + ")"
+		fargs += " rec_"
+	}
+	if toks["depth_"] {
+		fdecl += " (depth_ : Nat)"
+		fargs += " depth_"
+	}
 	cargs := ""
 	for _, c := range cnames {
 		cargs += " " + c
@@ -1115,14 +1143,15 @@ func (x *otrans) retCore(en oenv, rs []ast.Expr, fc *ofctx) string {
 		if c, ok := rs[0].(*ast.CallExpr); ok {
 			v, eff := x.call(c, en)
 			if eff != nil && len(eff.muts) > 0 {
-				if tupleTyp(eff.results) != tupleTyp(res) {
+				if tupleTyp(eff.results) != tupleTyp(res) && x.tupleOf(eff.results, nil) != x.tupleOf(res, nil) {
+					// (Go types that are the same Lean type - `MapKey` / `Storable`, both interfaces over V - may differ by name)
 					fail("return of a call with results %v, function returns %v", eff.results, res)
 				}
 				pre, r := x.applyEffect(eff, en)
 				return x.withGuards(g0, fc, pre+fc.final(x.finish(r, en)))
 			}
 			if len(res) > 1 {
-				if v.typ != tupleTyp(res) {
+				if v.typ != tupleTyp(res) && x.tupleOf(tupleParts(v.typ), nil) != x.tupleOf(res, nil) {
 					fail("return of a call of type %s, function returns %v", v.typ, res)
 				}
 				r := x.tmp("r")
@@ -1283,6 +1312,17 @@ func (x *otrans) run() string {
 			}
 		}
 	}
+	if x.usesDepth && !x.t.Rec && !x.t.Fuel {
+		fail("%s calls a dispatcher with a recursive implementation and is not listed with Rec / Fuel", x.t.Func)
+	}
+	if x.t.Rec || x.t.Fuel {
+		envDecl += " (depth_ : Nat)"
+	}
+	if x.t.Rec {
+		// structural recursion on the depth argument: at depth 0 the tree is deeper than the argument (`none`)
+		text = "match depth_ with\n| 0 => none\n| depth_ + 1 =>\n  let rec_ : " + oShapes[x.t.Func].recType + " := " + x.t.Lean + " env depth_\n  " + indent(pre+text, 2)
+		pre = ""
+	}
 	return out + doc + "def " + x.t.Lean + tp + envDecl + params + " :\n    " + x.resultType(en) + " :=\n  " + indent(pre+text, 2) + "\n"
 }
 
@@ -1302,6 +1342,9 @@ func oTranslate(u *oUnit, t *oTarget, dead *[]string) (text string, reason strin
 	if t.Kind == "dispatch" {
 		text = oDispatch(u, t)
 		return text, ""
+	}
+	if t.Promote != "" && funcs[t.Func] == nil {
+		oPromote(u, t)
 	}
 	fd := funcs[t.Func]
 	if fd == nil {
@@ -1355,6 +1398,12 @@ func oTranslate(u *oUnit, t *oTarget, dead *[]string) (text string, reason strin
 			x.shape.recv = "*" + x.shape.recv
 		}
 	}
+	x.shape.fuel = t.Fuel
+	if t.Rec {
+		// the shape was DECLARED (the dispatcher is generated before the implementation): start from it, check it at the end
+		decl := oRecShape(u, t)
+		x.shape.mut, x.shape.panics, x.shape.rec, x.shape.recType = append([]bool{}, decl.mut...), true, true, decl.recType
+	}
 	for pass := 0; ; pass++ {
 		if pass > 6 {
 			fail("the shape of %s does not stabilise", t.Func)
@@ -1375,10 +1424,105 @@ func oTranslate(u *oUnit, t *oTarget, dead *[]string) (text string, reason strin
 	if x.valueRecv && x.shape.mut[0] {
 		fail("%s has a value receiver and assigns it", t.Func)
 	}
+	if t.Rec {
+		decl := oRecShape(u, t)
+		for i := range decl.mut {
+			if x.shape.mut[i] != decl.mut[i] {
+				fail("%s: the declared list of changed arguments (Mut) differs from the computed one at position %d", t.Func, i)
+			}
+		}
+	}
 	sh := x.shape
 	sh.ok = true
 	oShapes[key] = sh
 	return text, ""
+}
+
+// oPromote: `T.M` is not declared: T embeds the interface field f and M is promoted through it.  The method set of T then
+// holds `func (m *T) M(args) results { return m.f.M(args) }` (Go specification, "Struct types"): that wrapper is what is translated.
+func oPromote(u *oUnit, t *oTarget) {
+	parts := strings.SplitN(t.Func, ".", 2)
+	found := false
+	for _, emb := range u.embedded(parts[0]) {
+		found = found || emb == t.Promote
+	}
+	if !found {
+		fail("%s: %s has no embedded field %s", t.Func, parts[0], t.Promote)
+	}
+	mt := ifaceMethod(oIfaceOf(t.Promote), parts[1])
+	if mt == nil {
+		fail("%s: interface %s has no method %s", t.Func, t.Promote, parts[1])
+	}
+	var decl, args []string
+	k := 0
+	for _, f := range mt.Params.List {
+		ns := f.Names
+		if len(ns) == 0 {
+			ns = []*ast.Ident{ast.NewIdent(fmt.Sprintf("a%d", k))}
+		}
+		for _, n := range ns {
+			decl = append(decl, n.Name+" "+norm(src(f.Type)))
+			args = append(args, n.Name)
+			k++
+		}
+	}
+	var res []string
+	if mt.Results != nil {
+		for _, f := range mt.Results.List {
+			res = append(res, norm(src(f.Type)))
+		}
+	}
+	text := fmt.Sprintf("package atree\nfunc (m *%s) %s(%s) (%s) {\n\treturn m.%s.%s(%s)\n}\n", parts[0], parts[1], strings.Join(decl, ", "),
+		strings.Join(res, ", "), t.Promote, parts[1], strings.Join(args, ", "))
+	f, err := parser.ParseFile(fset, "promoted_"+strings.ReplaceAll(t.Func, ".", "_")+".go", text, 0)
+	if err != nil {
+		fail("%s: the promotion wrapper does not parse: %v", t.Func, err)
+	}
+	funcs[t.Func] = f.Decls[0].(*ast.FuncDecl)
+	funcFile[t.Func] = "promoted through the embedded field `" + t.Promote + "`"
+}
+
+// oRecShape: the DECLARED shape of a Rec target (registered before its dispatcher is generated)
+func oRecShape(u *oUnit, t *oTarget) oshape {
+	fd := funcs[t.Func]
+	if fd == nil || fd.Recv == nil {
+		fail("Rec target %s: method not found", t.Func)
+	}
+	_, pt := fieldNames(fd.Type.Params)
+	_, rt := fieldNames(fd.Type.Results)
+	sh := oshape{ok: true, lean: t.Lean, params: pt, res: rt, mut: make([]bool, len(pt)+1), aliasRes: make([]int, len(rt)), panics: true, rec: true}
+	for i := range sh.aliasRes {
+		sh.aliasRes[i] = -1
+	}
+	sh.recv = goTypeOf(fd.Recv.List[0].Type)
+	if !strings.HasPrefix(sh.recv, "*") {
+		sh.recv = "*" + sh.recv
+	}
+	for _, m := range t.Mut {
+		sh.mut[m] = true
+	}
+	x := &otrans{u: u, t: t}
+	typ := u.ti(sh.recv).Lean + " → "
+	var mutT []string
+	if sh.mut[0] {
+		mutT = append(mutT, u.ti(sh.recv).Lean)
+	}
+	for i, p := range pt {
+		if v, ok := u.Types[strings.TrimSpace(p)]; ok && v.Kind == "drop" {
+			continue
+		}
+		if ts := typeSpecs[strings.TrimSpace(p)]; ts != nil {
+			if _, isF := ts.Type.(*ast.FuncType); isF {
+				continue
+			}
+		}
+		typ += paren(u.ti(p).Lean) + " → "
+		if sh.mut[i+1] {
+			mutT = append(mutT, u.ti(p).Lean)
+		}
+	}
+	sh.recType = typ + "Option " + paren(x.tupleOf(rt, mutT))
+	return sh
 }
 
 // oDispatch: the method M of a closed interface = match on the implementation
@@ -1420,10 +1564,20 @@ func oDispatch(u *oUnit, t *oTarget) string {
 				sh.aliasRes[i] = a
 			}
 		}
+		if is.rec {
+			if sh.recDisp != "" {
+				fail("%s has two recursive implementations", t.Func)
+			}
+			sh.recDisp, sh.recType = is.lean, is.recType
+		}
 		impls = append(impls, is)
 	}
 	// parameters
-	decl := " (env : " + u.envType() + ") (recv_ : " + u.ti(sumKey).Lean + ")"
+	decl := " (env : " + u.envType() + ")"
+	if sh.recDisp != "" {
+		decl += " (rec_ : " + sh.recType + ")"
+	}
+	decl += " (recv_ : " + u.ti(sumKey).Lean + ")"
 	var anames []string
 	for i, p := range pts {
 		if v, ok := u.Types[strings.TrimSpace(p)]; ok && v.Kind == "drop" {
@@ -1455,6 +1609,9 @@ func oDispatch(u *oUnit, t *oTarget) string {
 	for k, im := range sum.Impls {
 		is := impls[k]
 		call := is.lean + " env o_"
+		if is.rec {
+			call = "rec_ o_"
+		}
 		for _, a := range anames {
 			if a != "" {
 				call += " " + a
